@@ -700,6 +700,30 @@ type Step struct {
 	Type TypeSpec `json:"type"`
 	Req  ReqSpec  `json:"req"`
 	API  int      `json:"api,omitempty"` // 0 Bind, 1 BindAndValidate
+	// Pre: before the judged call the same binder binds the same request into another object of the same type through a
+	// single-source entry point (2 BindQuery, 3 BindHeader, 4 BindPath, 5 BindForm, 6 BindJSON); its result is not judged
+	Pre int `json:"pre,omitempty"`
+}
+
+// preBind is the single-source call of Step.Pre.
+func preBind(b binding.Binder, pre int, rr realReq, rt reflect.Type) {
+	if pre == 0 {
+		return
+	}
+	defer func() { recover() }() //nolint:errcheck
+	obj := reflect.New(rt).Interface()
+	switch pre {
+	case 2:
+		b.BindQuery(rr.req, obj) //nolint:errcheck
+	case 3:
+		b.BindHeader(rr.req, obj) //nolint:errcheck
+	case 4:
+		b.BindPath(rr.req, obj, rr.params) //nolint:errcheck
+	case 5:
+		b.BindForm(rr.req, obj) //nolint:errcheck
+	case 6:
+		b.BindJSON(rr.req, obj) //nolint:errcheck
+	}
 }
 
 type Case struct {
@@ -1207,10 +1231,17 @@ func phasePairs(c *mc.Ctx, kindNames []string) {
 				{Type: ts[i], Req: p1.r[1]},
 				{Type: ts[j], Req: p2.r[1]},
 			}
+			// single-source entry points on the same binder: in front of the first use of T1 (every second pair) and
+			// between the two uses of T2
+			if j%2 == 1 {
+				steps[0].Pre = 2 + i%5
+			}
+			steps[3].Pre = 2 + (i+j)%5
 			rts := []reflect.Type{p1.rt, p2.rt, p1.rt, p2.rt}
 			rrs := []realReq{p1.rr[0], p2.rr[0], p1.rr[1], p2.rr[1]}
 			for s := range steps {
 				upto := s
+				preBind(b, steps[s].Pre, rrs[s], rts[s])
 				if nontrivial(steps[s].Type, steps[s].Req) {
 					a.nontriv++
 				}
@@ -1796,6 +1827,7 @@ func replay(c *mc.Ctx, raw json.RawMessage) {
 		b := binding.NewDefaultBinder(nil)
 		for i, st := range cs.Steps {
 			rr := realize(st.Type, st.Req)
+			preBind(b, st.Pre, rr, st.Type.rtype())
 			if !bindJudge(c, a, b, st.API, st.Type.rtype(), st.Type, st.Req, rr, fmt.Sprintf("replay step %d", i+1), func() Case { return cs }) {
 				return
 			}
